@@ -182,7 +182,7 @@ def grid_dist(metric, u, v):
     return math.sqrt(sum(x * x for x in d))
 
 def gen_ctx_case(rng, lps=None, nps=None, max_ops=6, max_rows=30, arm_changes=True, warm=False, label=None,
-                 reward_styles=None, queries=True, grid=4, force_dim=None, fit_prob=0.1, swap_prob=0.06, ties=False):
+                 reward_styles=None, queries=True, grid=4, force_dim=None, fit_prob=0.1, swap_prob=0.06, ties=False, lints_nbhd=False):
     npk = rng.choice(nps if nps is not None else ["none"] + NP_KINDS)
     if lps is None:
         lps = CF_KINDS + LIN_KINDS if npk != "none" else LIN_KINDS
@@ -191,7 +191,7 @@ def gen_ctx_case(rng, lps=None, nps=None, max_ops=6, max_rows=30, arm_changes=Tr
         allowed = [k for k in allowed if k in ("greedy", "ucb", "thompson")] or ["ucb"]
     if npk == "clusters":
         allowed = [k for k in allowed if k != "popularity"] or ["ucb"]
-    if npk != "none":
+    if npk != "none" and not lints_nbhd:
         allowed = [k for k in allowed if k != "lints"] or ["linucb"]   # finding D8: LinTS under a neighbourhood policy
     kind = rng.choice(allowed)
     n_arms = rng.randint(2, 4)
